@@ -101,7 +101,11 @@ Definition g_step (U : universe) (t : txn) (o : op) : txn * res :=
   | OGetRef n => (t, g_get_ref t n)
   | OIterRefs => (t, RRefs (g_iter_refs t))
   | ODelRef n => (g_del_ref t n, ROk)
-  | OSetObj k => (with_tmp t (st_with_objs (t_tmp t) (fm_set k tt (s_objs (t_tmp t)))), RNum k)
+  | OSetObj k =>
+    (* temporal (memory) SetEncodedObject refuses other types without storing *)
+    if valid_typ U k
+    then (with_tmp t (st_with_objs (t_tmp t) (fm_set k tt (s_objs (t_tmp t)))), RNum k)
+    else (t, RErr EInvalidType)
   | OHasObj k => (t, if g_has_obj t k then ROk else RErr EObjNotFound)
   | OSizeObj k => (t, if g_has_obj t k then RNum (snd (U k)) else RErr EObjNotFound)
   | OGetObj ty k => (t, g_get_obj U t ty k)
@@ -162,4 +166,4 @@ Definition c19_run (u : list (N * N)) (init ops : list op) : out :=
   let U := mkU u in
   let b := st_init U init in
   let '(t, xs) := g_run U (txn_begin b) ops in
-  OList [OList (map o_res xs); o_store U (t_base t); OOk []; o_store U (g_commit t)].
+  OList [OList (map o_res xs); o_store U (t_base t); o_res ROk; o_store U (g_commit t)].
